@@ -63,7 +63,7 @@ def make_base(ctx, lw, rng, n):
 
 
 def run(ctx):
-    lw = setup(ctx)
+    lw = setup(ctx, warm=False)
     rng = ctx.rng
     State = lw.State
     tomo = lw.tomography
